@@ -11,6 +11,10 @@
 //                             made through a chosen typed entry point of the API, then checkExpectations(): "p <1 pass|0 fail>"
 //                             E, A = <entry>.<kind>:<n>, entry = ovl (C++ withParameter overload) | exp (C++ explicit
 //                             with…IntParameter) | c (C mock_c()->…->with…IntParameters), kind = int uint long ulong llong ullong
+//        getret <V|none> <d> -> a return value V = <kind>:<n> is stored with andReturnValue(<typed value>) (none: no return value), the call
+//                             is made, and EVERY integer reader reads it back, each in a fresh test: MockActualCall::return…Value(),
+//                             return…ValueOrDefault(d), mock().…ReturnValue(), mock().return…ValueOrDefault(d):
+//                             "<call|support>.<reader> ok <decimal>" | "… fail"
 //        compat <A> <B>    -> "c <a.compatibleForCopying(b)> <b.compatibleForCopying(a)>"
 //        name <X> <Y>      -> MockNamedValue(X): "n0 <getName>" "t0 <getType>" "s0 <toString>"; setName(Y): "n1 <getName>"
 //        ladd <name> <A> / lget <name> / llist / lclear          the case's MockNamedValueList (items numbered from 1)
@@ -300,6 +304,69 @@ void eqapi_body() {
     mock().checkExpectations();
 }
 
+// ---- getret: return value stored on the expectation, read back through every integer reader
+ApiVal g_rv; bool g_rv_none = false; int g_rd = 0; int g_reader = 0;
+const char* RET_WORDS[6] = { "Int", "UnsignedInt", "LongInt", "UnsignedLongInt", "LongLongInt", "UnsignedLongLongInt" };
+std::string reader_name(int idx) {          // idx = level*12 + kind*2 + form
+    int level = idx / 12, kind = (idx % 12) / 2, form = idx % 2;
+    std::string w = RET_WORDS[kind];
+    if (form == 1) return std::string(level ? "support." : "call.") + "return" + w + "ValueOrDefault";
+    if (level == 0) return "call.return" + w + "Value";
+    std::string lw = w; lw[0] = (char) (lw[0] + 32);
+    return "support." + lw + "ReturnValue";
+}
+void getret_body() {
+    g_returned = false;
+    mock().clear();
+    MockExpectedCall& e = mock().expectOneCall("f");
+    if (!g_rv_none) {
+        const ApiVal& v = g_rv;
+        if (v.kind == "int") e.andReturnValue((int) v.s);
+        else if (v.kind == "uint") e.andReturnValue((unsigned int) v.u);
+        else if (v.kind == "long") e.andReturnValue((long int) v.s);
+        else if (v.kind == "ulong") e.andReturnValue((unsigned long int) v.u);
+        else if (v.kind == "llong") e.andReturnValue((cpputest_longlong) v.s);
+        else e.andReturnValue((cpputest_ulonglong) v.u);
+    }
+    MockActualCall& a = mock().actualCall("f");
+    int level = g_reader / 12, kind = (g_reader % 12) / 2, form = g_reader % 2;
+    long long rs = 0; unsigned long long ru = 0; bool is_signed = (kind % 2 == 0);
+    if (level == 0) {
+        switch (kind * 2 + form) {
+            case 0: rs = a.returnIntValue(); break;
+            case 1: rs = a.returnIntValueOrDefault((int) g_rd); break;
+            case 2: ru = a.returnUnsignedIntValue(); break;
+            case 3: ru = a.returnUnsignedIntValueOrDefault((unsigned int) g_rd); break;
+            case 4: rs = a.returnLongIntValue(); break;
+            case 5: rs = a.returnLongIntValueOrDefault((long int) g_rd); break;
+            case 6: ru = a.returnUnsignedLongIntValue(); break;
+            case 7: ru = a.returnUnsignedLongIntValueOrDefault((unsigned long int) g_rd); break;
+            case 8: rs = a.returnLongLongIntValue(); break;
+            case 9: rs = a.returnLongLongIntValueOrDefault((cpputest_longlong) g_rd); break;
+            case 10: ru = a.returnUnsignedLongLongIntValue(); break;
+            case 11: ru = a.returnUnsignedLongLongIntValueOrDefault((cpputest_ulonglong) g_rd); break;
+        }
+    }
+    else {
+        switch (kind * 2 + form) {
+            case 0: rs = mock().intReturnValue(); break;
+            case 1: rs = mock().returnIntValueOrDefault((int) g_rd); break;
+            case 2: ru = mock().unsignedIntReturnValue(); break;
+            case 3: ru = mock().returnUnsignedIntValueOrDefault((unsigned int) g_rd); break;
+            case 4: rs = mock().longIntReturnValue(); break;
+            case 5: rs = mock().returnLongIntValueOrDefault((long int) g_rd); break;
+            case 6: ru = mock().unsignedLongIntReturnValue(); break;
+            case 7: ru = mock().returnUnsignedLongIntValueOrDefault((unsigned long int) g_rd); break;
+            case 8: rs = mock().longLongIntReturnValue(); break;
+            case 9: rs = mock().returnLongLongIntValueOrDefault((cpputest_longlong) g_rd); break;
+            case 10: ru = mock().unsignedLongLongIntReturnValue(); break;
+            case 11: ru = mock().returnUnsignedLongLongIntValueOrDefault((cpputest_ulonglong) g_rd); break;
+        }
+    }
+    if (is_signed) snprintf(g_result, sizeof g_result, "%lld", rs); else snprintf(g_result, sizeof g_result, "%llu", ru);
+    g_returned = true;
+}
+
 const char* GETTERS[6] = { "getIntValue", "getUnsignedIntValue", "getLongIntValue", "getUnsignedLongIntValue",
                            "getLongLongIntValue", "getUnsignedLongLongIntValue" };
 const char* XGETTERS[13] = { "getBoolValue", "getDoubleValue", "getDoubleTolerance", "getStringValue", "getPointerValue",
@@ -335,6 +402,22 @@ void run_case(const vh::Case& c) {
             mock().clear();
             MockNamedValue::setDefaultComparatorsAndCopiersRepository(def);
             vh::emit("p %d", failures == 0 ? 1 : 0);
+        }
+        else if (w[0] == "getret" && w.size() == 3) {
+            g_rv_none = (w[1] == "none");
+            if (!g_rv_none && !parse_apival("ovl." + w[1], g_rv)) { vh::emit("> skip"); continue; }
+            if (!parse_index(w[2], 100, g_rd)) { vh::emit("> skip"); continue; }
+            vh::emit("> getret %s %d", g_rv_none ? "none" : g_rv.canon.substr(4).c_str(), g_rd);
+            for (g_reader = 0; g_reader < 24; g_reader++) {
+                g_returned = false;
+                size_t failures = vh::in_fixture(getret_body);
+                mock().clear();
+                MockNamedValue::setDefaultComparatorsAndCopiersRepository(def);
+                std::string rn = reader_name(g_reader);
+                if (failures == 0 && g_returned) vh::emit("%s ok %s", rn.c_str(), g_result);
+                else if (failures > 0 && !g_returned) vh::emit("%s fail", rn.c_str());
+                else vh::emit("%s inconsistent failures=%lu returned=%d", rn.c_str(), (unsigned long) failures, g_returned ? 1 : 0);
+            }
         }
         else if (w[0] == "compat" && w.size() == 3) {
             MockNamedValue a("a"), b("b");
